@@ -74,7 +74,16 @@ def one_case(ctx, rng, wd, K=None, force=None, force_N=None):
                     "rdelta": w, "H": inf["Hs"], "types": [s.particle_type for s in snaps.snapshots], "retyped_between_frames": retype,
                     "positions": [s.positions for s in snaps.snapshots] if inf["N"] <= 30 else "omitted(N>30)"}
     key = f"gr/K{min(Kreal, 6)}"
-    ok, res = ctx.call(key, lambda: gr(snaps, ppp=ppp, rdelta=w, outputfile=outfile).getresults(), data=info)
+    again = bool(rng.random() < 0.3)       # history: the SAME object asked twice (a re-run notebook cell); the second answer is monitored
+
+    def go():
+        obj = gr(snaps, ppp=ppp, rdelta=w, outputfile=outfile)
+        r_ = obj.getresults()
+        if again:
+            ctx.count("second_call_on_same_object")
+            r_ = obj.getresults()
+        return r_
+    ok, res = ctx.call(key + ("/second_call" if again else ""), go, data=info)
     if not ok:
         ctx.case(f"K{Kreal}/{d}D/{inf['cell']}", nontrivial=False)
         return
